@@ -11,7 +11,7 @@
    std::invalid_argument leaving the Char_Parser (Foreign_out_of_range, Foreign_invalid_argument), a node constructor's `assert` on the number of children or a throw inside the
    Char_Parser destructor (Terminate). *)
 From Coq Require Import ZArith NArith List Bool String.
-From ChaiV Require Import NumDefs Ast LexDefs LexProofs LexLitProofs ParserLexProofs ParserDefs ParserProofs ParserBodies ParserTheorems.
+From ChaiV Require Import NumDefs Ast LexDefs LexProofs LexLitProofs ParserLexProofs ParserDefs ParserProofs ParserBodies ParserTriviaProofs ParserTheorems.
 From ChaiV.Gen Require Import G_IntLadder G_Keywords G_OperatorTable.
 Import ListNotations.
 Local Open Scope string_scope.
@@ -83,17 +83,30 @@ Proof. vm_compute. auto. Qed.
    FULL STATEMENT (the repaired parse_internal):
      parse bytes fname = Ok t ->  (kind t = File /\ the final cursor is at the end of the input) \/ (kind t = Noop /\ trivia_only bytes = true)
    with ParserDefs.trivia_only the independently written automaton (spaces, tabs, line ends, comments, annotations, shebang line).
-   PROVED (`_partial`): a normal result is a File node or THE location-less Noop node; in both cases the final cursor is at the end of the
-   input, the buffer is the caller's, line/col are right (wf_pos) and the depth counter is back at 0 -- i.e. "Unparsed input" is raised
-   whenever anything is left over, on both branches of parse_internal.
-   MISSING for the full statement: the lemma "a grammar function that reports NO match has moved the cursor over white space and comments
-   only" (for all 28 functions, by the same induction as P_ok) together with "SkipWS consumes trivia only", which turn `Noop` into
-   `trivia_only bytes`.  The direction is covered by the oracle of tools/p_C01.py on every run (root Noop => the extracted trivia_only holds). *)
+   PROVED at full strength for EVERY byte string that does not begin with the two bytes `#!` (C01_accounts): the proof relates the cursor to the
+   state of the specification automaton run over the bytes before it (ParserTriviaProofs: SkipComment / SkipWS move between "trivia boundaries",
+   every scanner and every grammar function that reports no match leaves the cursor on one -- for Num() this is the fix 3bd5fe4: before it,
+   `.1e` parsed to Noop), so a Noop root means the automaton accepts the whole buffer.
+   PROVED for all inputs (`_partial`): a normal result is a File node or THE location-less Noop node; in both cases the final cursor is at the end
+   of the input, the buffer is the caller's, line/col are right and the depth counter is back at 0.
+   MISSING for inputs that begin with `#!`: the lemma that the first Eol() of parse_internal's shebang loop, which starts on the `#`, skips
+   exactly that annotation line and then sees the line end or the end of the input (never `;`, never a byte the loop would step over with `++`).
+   Both directions are also checked by the oracle of tools/p_C01.py on every run (root Noop <=> the extracted trivia_only holds). *)
+Theorem C01_accounts : forall (bytes : list N) (fname : string) (t : pnode) (s' : state pstate),
+  no_shebang bytes ->
+  parse_full A T K G bytes fname = Ok (t, s') ->
+  (pn_kind t = Ast.KFile /\ idx (pos s') = List.length bytes) \/ (t = noop_node /\ trivia_only bytes = true).
+Proof. exact parse_gen_accounts. Qed.
+Print Assumptions C01_accounts.
 Theorem C01_accounts_partial : forall (bytes : list N) (fname : string) (t : pnode) (s' : state pstate),
   parse_full A T K G bytes fname = Ok (t, s') ->
   buf (pos s') = bytes /\ wf_pos (pos s') /\ idx (pos s') = List.length bytes /\ depth s' = 0%nat /\ (pn_kind t = Ast.KFile \/ t = noop_node).
 Proof. exact parse_gen_root. Qed.
 Print Assumptions C01_accounts_partial.
+(* malformed numeric literals are rejected, not dropped (they were before fix 3bd5fe4) *)
+Example C01_malformed_number_rejected :
+  parse A T K G (bos ".1e") "F" = Err "Unparsed input" 1 1 /\ parse A T K G (bos "f(.1e)") "F" = Err "Incomplete function call" 1 3 /\ trivia_only (bos ".1e") = false.
+Proof. vm_compute. auto. Qed.
 (* the hypotheses are satisfiable by non-trivial inputs: a program, and an input of trivia only *)
 Example C01_accounts_file : exists t s', parse_full A T K G (bos "x = 1 // c") "F" = Ok (t, s') /\ pn_kind t = Ast.KFile /\ idx (pos s') = 10%nat.
 Proof. vm_compute. eexists. eexists. split; [reflexivity|]. split; reflexivity. Qed.
